@@ -283,6 +283,22 @@ def initDiscount (b : BankR) (price : Int) : Res (Option Int) :=
     let lim := ofInt b.initLimit
     if total > lim then (math (div? lim total)).map some else .ok none
 
+/-- the asset weight before the init-limit discount: the bank's own weight, or the reconciled e-mode
+    entry's if that is higher (equity: e-mode never applies, weight 1) -/
+def assetWeight0 (b : BankR) (r : Req) (emode : List Entry) : Int :=
+  match findWithTag emode b.emodeTag with
+  | some e => max (bankWeight b r .assets) (match r with | .initial => e.wInit | .maint => e.wMaint | .equity => ONE)
+  | none => bankWeight b r .assets
+
+/-- the weight actually applied: for the initial requirement the init-limit discount multiplies it -/
+def assetWeight (b : BankR) (r : Req) (emode : List Entry) (lower : Int) : Res Int :=
+  if r = .initial then do
+    let d ← initDiscount b lower
+    match d with
+    | some d => math (mul? (assetWeight0 b r emode) d)
+    | none => .ok (assetWeight0 b r emode)
+  else .ok (assetWeight0 b r emode)
+
 /-- `calc_weighted_asset_value` → (value, price, oracle error code) -/
 def weightedAsset (p : Pos) (r : Req) (emode : List Entry) : Res (Int × Int × Nat) :=
   let b := p.bank
@@ -294,16 +310,8 @@ def weightedAsset (p : Pos) (r : Req) (emode : List Entry) : Res (Int × Int × 
       | .failed c, .initial => .ok (0, 0, c)
       | .failed c, _ => err c
       | f, _ => do
-        let w0 := match findWithTag emode b.emodeTag with
-          | some e => max (bankWeight b r .assets) (match r with | .initial => e.wInit | .maint => e.wMaint | .equity => ONE)
-          | none => bankWeight b r .assets
         let lower ← priceOfType f r.ptype (some .low) b.maxConf
-        let w ← (if r = .initial then do
-                    let d ← initDiscount b lower
-                    match d with
-                    | some d => math (mul? w0 d)
-                    | none => .ok w0
-                 else .ok w0)
+        let w ← assetWeight b r emode lower
         let amt ← assetAmount b p.a
         let v ← calcValue amt lower b.decimals (some w)
         .ok (v, lower, 0)
